@@ -116,6 +116,13 @@ def run_failing(cfg, devs, device, n, t_end=2_000_000_003, kind="device", bus=No
                                      if c == device and sum(1 for (c2, _, _) in slevel.TRACE[:slevel.TRACE.index((c, t, _)) + 1] if c2 == device) == n), None)
             if not done:
                 run.cancel()
+            if bus is not None:
+                # run() has returned; with a broker-like backend the stop messages already published are still on
+                # their way: "told to stop" is judged once the bus has delivered what was published
+                for _ in range(2000):
+                    await asyncio.sleep(0)
+                    if not bus._candidates() and not any(c.busy for c in bus.consumers):
+                        break
         finally:
             mm.MasterScheduler.handle_component_exception = orig_hce
             tk.Ticker.__call__ = orig_call
